@@ -83,6 +83,10 @@ func runC16(c *core.Ctx) {
 
 	c.Doc("C16.subscribers", "OnTerminate hands every former subscriber the termination error and drops its handler", 2)
 	ruleSubscribersTold(c)
+	ruleTellEverySubscriber(c, "C16.subscribers")
+
+	c.Doc("C16.hook-callers", "the termination hook is run only by the functions that take the object out of its table, and by hooks forwarding to a wrapped object", 3)
+	ruleTerminateHookCallers(c, "C16.hook-callers")
 
 	c.Doc("C16.client-ids", "client-side object ids: counter only incremented, under its mutex", 1)
 	ruleClientIDs(c, lc)
